@@ -36,3 +36,41 @@ func VerifCheckInteger(expect int64, text string) bool {
 	t.addReceivedData([]byte("#SUCC:"+text+"\n"), false)
 	return t.checkInteger(expect, time.After(time.Second)) == nil
 }
+
+// VerifRecvAfterStop arms the stop flag (keep or delete) on a fresh transfer and then calls
+// the given reader; it returns the error text the reader reports.
+// reader: "line" (recvLine), "linejunk" (recvLine with junk tolerance), "v2" (recvCheckV2),
+// "senddata" (sendData), "gate" (checkStopAndPause)
+func VerifRecvAfterStop(reader string, windows bool, del bool, protocol int) string {
+	var out bytes.Buffer
+	t := newTransfer(&out, nil, false, nil)
+	t.transferConfig.Timeout = 1
+	t.transferConfig.Protocol = protocol
+	t.windowsProtocol = windows
+	if windows {
+		t.transferConfig.Newline = "!\n"
+	}
+	go func() {
+		time.Sleep(30 * time.Millisecond)
+		t.stopTransferringFiles(del)
+	}()
+	var err error
+	switch reader {
+	case "line":
+		_, err = t.recvLine("SUCC", false, time.After(2*time.Second))
+	case "linejunk":
+		_, err = t.recvLine("SUCC", true, time.After(2*time.Second))
+	case "v2":
+		_, _, _, err = t.recvCheckV2("SUCC")
+	case "senddata":
+		time.Sleep(60 * time.Millisecond)
+		err = t.sendData([]byte("x"))
+	case "gate":
+		time.Sleep(60 * time.Millisecond)
+		err = t.checkStopAndPause("DATA")
+	}
+	if err == nil {
+		return ""
+	}
+	return err.Error()
+}
